@@ -74,7 +74,17 @@ fn option_records(v: &RefValue, rng: &mut Rng, many: bool) -> Vec<RefPrint> {
     out
 }
 
+/// run a printing call of the real library; a panic (the printed form of an in-memory value always
+/// exists) is a violation with the input that caused it
+fn guarded(rep: &mut Report, input: String, f: impl FnOnce() -> String) -> Option<String> {
+    match std::panic::catch_unwind(std::panic::AssertUnwindSafe(f)) {
+        Ok(s) => Some(s),
+        Err(_) => { rep.violation("printing panics", "print-panic", input, "the printer panicked".into()); None }
+    }
+}
+
 pub fn run(prop: &str, thorough: bool, seed: u64, rep: &mut Report) {
+    std::panic::set_hook(Box::new(|_| {}));
     let mut rng = Rng(seed.wrapping_mul(0x9E3779B97F4A7C15) | 1);
     let vals = values(if thorough { 3 } else { 2 }, if thorough { 3 } else { 2 });
     rep.bounds = vec![("values".into(), vals.len().to_string()), ("depth".into(), (if thorough { 3 } else { 2 }).to_string())];
@@ -85,7 +95,7 @@ pub fn run(prop: &str, thorough: bool, seed: u64, rep: &mut Report) {
             for v in &vals {
                 let real_v = to_real(v);
                 for o in option_records(v, &mut rng, thorough) {
-                    let printed = real_v.print_with(real_opts(&o)).to_string();
+                    let printed = match guarded(rep, format!("value={:?} options={:?}", v, o), || real_v.print_with(real_opts(&o)).to_string()) { Some(p) => p, None => continue };
                     rep.eval(matches!(v, RefValue::Arr(_) | RefValue::Obj(_)), fnv(printed.as_bytes()) ^ fnv(format!("{:?}", o).as_bytes()));
                     if prop == "C13" {
                         let mut want = String::new(); ref_layout(v, &o, 0, &mut want);
@@ -101,12 +111,13 @@ pub fn run(prop: &str, thorough: bool, seed: u64, rep: &mut Report) {
             }
             if prop == "C13" { for v in vals.iter().take(40) {
                 let r = to_real(v);
-                for (name, s) in [("inline", r.inline_print().to_string()), ("compact", r.compact_print().to_string())] {
+                let (si, sc) = match (guarded(rep, format!("inline {:?}", v), || r.inline_print().to_string()), guarded(rep, format!("compact {:?}", v), || r.compact_print().to_string())) { (Some(a), Some(b)) => (a, b), _ => continue };
+                for (name, s) in [("inline", si), ("compact", sc)] {
                     let mut want = String::new(); ref_layout(v, &(if name == "inline" { inline() } else { compact() }), 0, &mut want);
                     if s != want { rep.violation("inline/compact presets", "preset", format!("{} {:?}", name, v), format!("real={:?} reference={:?}", s, want)); }
                 }
                 let mut want = String::new(); ref_layout(v, &pretty(), 0, &mut want);
-                if r.pretty_print().to_string() != want { rep.violation("pretty preset", "preset", format!("{:?}", v), want); }
+                if let Some(pp) = guarded(rep, format!("pretty {:?}", v), || r.pretty_print().to_string()) { if pp != want { rep.violation("pretty preset", "preset", format!("{:?}", v), want); } }
             } }
         }
         "C08" => {
@@ -114,7 +125,10 @@ pub fn run(prop: &str, thorough: bool, seed: u64, rep: &mut Report) {
             for v in &vals {
                 let r = to_real(v);
                 let mut want = String::new(); ref_compact(v, &mut want);
-                let a = r.compact_print().to_string(); let b = r.to_string(); let c = format!("{}", r); let d: String = r.clone().into();
+                let all = guarded(rep, format!("{:?}", v), || { let a = r.compact_print().to_string(); let b = r.to_string(); let c = format!("{}", r); let d: String = r.clone().into(); [a, b, c, d].join("\u{0}") });
+                let parts: Vec<String> = match all { Some(x) => x.split('\u{0}').map(|t| t.to_string()).collect(), None => continue };
+                if parts.len() != 4 { continue; }
+                let (a, b, c, d) = (parts[0].clone(), parts[1].clone(), parts[2].clone(), parts[3].clone());
                 rep.eval(true, fnv(want.as_bytes()));
                 if !(a == want && b == want && c == want && d == want) { rep.violation("compact output == reference", "compact", format!("{:?}", v), format!("compact_print={:?} to_string={:?} display={:?} into_string={:?} reference={:?}", a, b, c, d, want)); }
             }
@@ -125,7 +139,7 @@ pub fn run(prop: &str, thorough: bool, seed: u64, rep: &mut Report) {
                     let s: String = ch.to_string();
                     let v = RefValue::Obj(vec![(s.clone(), RefValue::Str(s))]);
                     let mut want = String::new(); ref_compact(&v, &mut want);
-                    let got = to_real(&v).compact_print().to_string();
+                    let got = match guarded(rep, format!("U+{:04X}", n), || to_real(&v).compact_print().to_string()) { Some(g) => g, None => { n += 1; continue } };
                     rep.eval(true, n as u64);
                     if got != want { rep.violation("RFC 8785 escaping of every scalar", "scalar", format!("U+{:04X}", n), format!("real={:?} reference={:?}", got, want)); if rep.violations.len() > 5 { break; } }
                 }
